@@ -1,25 +1,35 @@
 //! C17 — joins return the SQL-defined rows under any memory budget (QRY engine, exploration).
 //!
 //! Bounded-exhaustive: every pair (triple) of small tables whose join keys are multisets over
-//! {NULL,1,2,3} (duplicates allowed, payload unique per row) × every query of a join grammar
-//! (INNER/LEFT/RIGHT/FULL/CROSS/comma, ON eq / reversed eq / `<` / eq + extra conjunct, WHERE on
-//! either side, 3-way chains, aliases, `SELECT *`) × {plain, secondary index on the inner key,
-//! PRIMARY KEY on the inner key} × `PRAGMA join_memory_budget` ∈ {default, 65536, 4096, 256, 1, 0}.
+//! {NULL,1,2,3} (duplicates allowed, payload unique per row) x every query of a join grammar
+//! (INNER/LEFT/RIGHT/FULL/CROSS/comma, ON eq / reversed eq / `<` / `<=` / eq OR false / eq + extra
+//! conjunct, WHERE on either side, 3-way chains, aliases, self join, `SELECT *`, the semi/anti joins
+//! behind IN / EXISTS / NOT EXISTS) x {plain, secondary index on the inner key, PRIMARY KEY on the
+//! inner key, index on the outer key} x `PRAGMA join_memory_budget` in {default, 65536, 4096, 256, 1, 0}.
 //! Oracle 1 (model): the bag returned by TurDB equals the bag of `refmodel::sql::Query::eval`.
 //! Oracle 2 (budgets): the bag under every budget equals the bag under the default budget.
 //! (Equality across indexed/unindexed variants follows from oracle 1 on each variant and is
 //! additionally counted in `variant_diffs`.)
 //!
-//! Blame / stop at divergence: queries are ordered simplest first; when a base query
-//! (same kind and ON, no WHERE / no extra conjunct / explicit column list) already violates on
-//! given tables, its derived queries on these tables are pruned (counted), so every signature
-//! names the smallest failing construct.
+//! Signature: C17/<join kind(s)>/<ON shape>[+where(side)][+form]/<plan shape from EXPLAIN>/<budget class>/<failure>.
+//! The plan shape keeps the operator names, the join type the planner chose and the position of
+//! Filter / index-scan nodes (`GraceHashJoin:Left(TableScan,Filter(TableScan))`): it is what decides
+//! which hand-written execution path of `Database::query` runs.  Budget class: a failure that already
+//! occurs under the default budget is blamed on `default`; the same failure under another budget is
+//! only counted, a different one (or a difference to the default answer) is reported under tiny/small.
 //!
-//! Pass `pad`: 300-row tables with a 400-byte TEXT payload per row, every budget, a directory
-//! watch (inotify) on TMPDIR and on the database directory counts files created while the join
-//! runs (= spill activity through SQL).  Pass `op`: the join operators of src/sql/executor.rs
-//! (which the SQL front end does not reach at this commit) are driven directly through the public
-//! `ExecutorBuilder` API, GraceHashJoin with a real spill directory and tiny budgets.
+//! Blame / stop at divergence: queries are ordered simplest first; when a base query
+//! (same kind and ON, no WHERE / no extra conjunct / explicit column list; for a chain its first
+//! join) already violates on given tables, its derived queries on these tables are pruned (counted),
+//! so every signature names the smallest failing construct.
+//!
+//! Pass `pad`: 300-row tables with a 400-byte TEXT payload per row, equi-join shapes, every budget; a
+//! directory watch (inotify) on TMPDIR, the scratch root and the database directory counts the files
+//! created while the join runs (= spill activity through SQL).  Pass `op`: the join operators of
+//! src/sql/executor.rs (which the SQL front end does not reach at this commit) are driven directly
+//! through the public `ExecutorBuilder` API: NestedLoopJoinState, StreamingHashJoinState and
+//! GraceHashJoinState, the latter with a real spill directory and budgets down to 0 (spill files are
+//! counted after `open()`), on the same small tables and on the 300-row padded tables.
 use checks::sqlh::*;
 use refmodel::sql::expr::{self as ex, Expr};
 use refmodel::sql::query::{From, JoinKind, Query, SelectItem, Table};
@@ -1553,7 +1563,7 @@ impl Check for C17 {
         let mut s = Spec::new(
             PROP,
             "exploration",
-            "Pass pairs: every ordered pair of tables l(k,x), r(k,y) whose key columns are the multisets of <= 3 (thorough: <= 4, and both insertion orders for <= 3) values over {NULL,1,2,3}, payload unique per row; x 3-4 physical variants (no index, secondary index on r.k, PRIMARY KEY r.k where the keys allow it, index on l.k); x every query of the grammar {INNER,LEFT,RIGHT,FULL} x ON {l.k=r.k, r.k=l.k, l.k<r.k, eq AND r.y>c, eq AND l.x>c} x WHERE {none, 1=1, l.x>c, r.y>c, l.k IS NULL, r.k IS NULL, l.k=1, r.k=1}, CROSS and comma joins with the same WHEREs and with the join predicate in WHERE, aliased / self / SELECT * forms; x PRAGMA join_memory_budget in {default,65536,4096,256,1,0}. Pass chain: all triples of tables over {NULL,1,2} (<= 2 rows, thorough <= 3) x all 25 kind pairs of (l J1 r) J2 m x second ON on r.k or l.k x WHERE {none, m.z>c, m.k IS NULL}. Pass pad: 300-row tables with 400-byte payloads under every budget, files created during the query are counted. Pass op: the executor join operators driven directly (GraceHashJoin with real spill files). One case = one (tables, variant, budget, query) execution compared as a bag with the reference model; non-trivial = the expected bag is non-empty. Queries whose simpler base query already fails on the same tables are pruned and counted.",
+            "Pass pairs: every ordered pair of tables l(k,x), r(k,y) whose key columns are the multisets of <= 3 values over {NULL,1,2,3} (thorough: both insertion orders, 4-row tables against every <= 2-row table and against 3-/4-row tables over {NULL,1,2}), payload unique per row; x physical variants (no index, secondary index on r.k, PRIMARY KEY r.k where the keys allow it; thorough: index on l.k); x every query of the grammar {INNER,LEFT,RIGHT,FULL} x ON {l.k=r.k, l.k<r.k, l.k<=r.k, l.k=r.k OR false, eq AND r.y>c, eq AND l.x>c; thorough: r.k=l.k} and WHERE {none, 1=1, l.x>c, r.y>c, l.k IS NULL, r.k IS NULL, l.k=1, r.k=1} (quick: the WHEREs with ON in {eq, lt, eq AND r.y>c}), CROSS and comma joins with the same WHEREs and with the join predicate in WHERE, semi/anti joins (IN, EXISTS, NOT EXISTS), aliased / self-join / SELECT * forms; x PRAGMA join_memory_budget in {default,65536,4096,256,1,0}. Pass chain: all triples of tables over {NULL,1,2} (<= 2 rows, thorough <= 3) x all 25 kind pairs of (l J1 r) J2 m x second ON on r.k or l.k x WHERE {none, m.z>c, m.k IS NULL} x budgets (quick: default,4096,0). Pass pad: 300-row tables with 400-byte payloads, 13 equi-join queries under every budget, files created during the query are counted. Pass op: the executor join operators driven directly on all table pairs (NestedLoopJoin 5 kinds x 4 conditions, StreamingHashJoin, GraceHashJoin in memory and with real spill files under 5 budgets) and on the padded tables. One case = one (tables, variant, budget, query) execution compared as a bag with the reference model; non-trivial = the expected bag is non-empty. Queries whose simpler base query already fails on the same tables are pruned and counted.",
         );
         s.cap_quick_s = 90;
         s.cap_thorough_s = 1500;
